@@ -97,7 +97,15 @@ func drawDev(c *simkit.Choice, units int) (*reftls.Dev, int, string) {
 		d.Val = []int{0, 1, 65537, 0xffffff, 70000}[c.Choose(5, simkit.LFault)]
 		why = "handshake length field rewritten"
 	case reftls.DevInsertRecord:
-		switch c.Choose(6, simkit.LFault) {
+		switch c.Choose(8, simkit.LFault) {
+		case 6:
+			d.Typ, d.RecBody = reftls.RecHandshake, reftls.Handshake(reftls.HsHelloRequest, nil)
+			why = "extra HelloRequest inserted"
+		case 7:
+			t := []uint8{1, 2, 4, 11, 12, 13, 14, 15, 16, 20, 3}[c.Choose(11, simkit.LFault)]
+			d.RecBody = reftls.Handshake(t, drawData(c, c.Range(0, 12, simkit.LFault)))
+			d.Typ = reftls.RecHandshake
+			why = fmt.Sprintf("extra handshake message of type %d inserted", t)
 		case 0:
 			d.Typ, d.RecBody = reftls.RecApp, []byte("application data before Finished")
 			why = "application data during the handshake"
